@@ -198,6 +198,53 @@ Theorem C06_rw_symmetry_star_two_vars :
 Proof. exact @rw_symmetry_star_two_vars. Qed.
 Print Assumptions C06_rw_symmetry_star_two_vars.
 
+(* a named port wired into a child of a glob node and a glob port with a tuple-path "*" entry over that node, both updating one variable of that child: both values arrive (as a multi-update) *)
+Theorem C06_star_path_collision_merges :
+  forall (a : list key) (p : list seg) (k1 k2 ch x : key) (z1 z2 : Z) (inner : list key),
+         k1 <> k2 ->
+         abs_keys (normalize (dn a ++ p)) = Ok inner ->
+         invert true a [(k1, UD [(x, UV z1)]); (k2, UD [(ch, UD [(x, UV z2)])])]
+           [(PK k1, TPath (p ++ [Dn ch])); (PK k2, TDict None [(PStar, TPath p)])] =
+         Ok (usingle_top (inner ++ [ch; x]) (UM [UV z1; UV z2])).
+Proof. exact @star_path_collision_merges. Qed.
+Print Assumptions C06_star_path_collision_merges.
+
+(* fixed defect F21: before the repair the earlier port's value was overwritten *)
+Theorem C06_star_path_collision_refuted_pinned :
+  forall (a : list key) (p : list seg) (k1 k2 ch x : key) (z1 z2 : Z) (inner : list key),
+         k1 <> k2 ->
+         abs_keys (normalize (dn a ++ p)) = Ok inner ->
+         invert false a [(k1, UD [(x, UV z1)]); (k2, UD [(ch, UD [(x, UV z2)])])]
+           [(PK k1, TPath (p ++ [Dn ch])); (PK k2, TDict None [(PStar, TPath p)])] =
+         Ok (usingle_top (inner ++ [ch; x]) (UV z2)).
+Proof. exact @star_path_collision_refuted_pinned. Qed.
+Print Assumptions C06_star_path_collision_refuted_pinned.
+
+(* ... tied to the store: both ports read the same node, and that node receives both updates *)
+Theorem C06_star_path_collision_view :
+  forall (t : store) (a : list key) (c : list (pkey * schema)) (p : list seg)
+           (k1 k2 ch x : key) (S1 sub : schema) (v : vtree) (r1 r2 : list key) 
+           (z1 z2 : Z),
+         let tp := [(PK k1, TPath (p ++ [Dn ch])); (PK k2, TDict None [(PStar, TPath p)])] in
+         keys_ok c = true ->
+         k1 <> k2 ->
+         plook (PK k1) c = Some S1 ->
+         pstar_schema S1 = true ->
+         svar_path S1 [x] = true ->
+         plook (PK k2) c = Some (SNode false [(PStar, sub)]) ->
+         pstar_schema sub = true ->
+         svar_path sub [x] = true ->
+         view t a (SNode false c) tp = Ok v ->
+         vget v [k1; x] = Some (VRef r1) ->
+         vget v [k2; ch; x] = Some (VRef r2) ->
+         r1 = r2 /\
+         invert true a [(k1, UD [(x, UV z1)]); (k2, UD [(ch, UD [(x, UV z2)])])] tp =
+         Ok (usingle_top r2 (UM [UV z1; UV z2])) /\
+         invert false a [(k1, UD [(x, UV z1)]); (k2, UD [(ch, UD [(x, UV z2)])])] tp =
+         Ok (usingle_top r2 (UV z2)).
+Proof. exact @star_path_collision_view. Qed.
+Print Assumptions C06_star_path_collision_view.
+
 
 (* ---- non-vacuity: a nested example with '..' paths, a '_path' dict with a redirected sub-key ---- *)
 Definition ex_lf := Lf {| l_val := Some 1%Z; l_def := Some 1%Z; l_units := None; l_ser := None |}.
@@ -219,4 +266,5 @@ Check StarEx.rw_symmetry_star_beside_sat.
 Check StarEx.rw_symmetry_star_inside_sat.
 Check StarCx.star_unlisted_counterexample.
 Check StarCx.star_named_sibling_counterexample.
+Check StarCollisionEx.star_path_collision_sat.
 
